@@ -70,6 +70,10 @@ type c12Race struct {
 	// only then the writer commits: the write lands between the compactor's preparations for the flush
 	// and the flush itself.
 	HoldLock bool `json:"holdLock,omitempty"`
+	// Early: the (single) writer started BEFORE the compaction: it has taken its commit time and
+	// staged its batch, and is parked just before its commit (holding the write lock) when the
+	// compactor opens its snapshot; it commits when the compactor has arrived at its first flush.
+	Early bool `json:"early,omitempty"`
 }
 
 // c12Kill: the process is killed at the NSel-th (mod number of hits) arrival.
@@ -939,7 +943,35 @@ func (r *c12Runner) runRace(rc c12Race) {
 	var werr error
 	wrote := 0
 	var late []chan error
+	var earlyRelease chan struct{}
+	if rc.Early {
+		w := rc.Writes[0]
+		parked, release := make(chan struct{}), make(chan struct{})
+		var once sync.Once
+		verifhook.SetCallback("store.beforeIDCommit", func(int) { once.Do(func() { close(parked); <-release }) })
+		ch := make(chan error, 1)
+		go func() { ch <- h.StoreBatch(c12DS, w.Ents, w.Via) }()
+		select {
+		case <-parked:
+			earlyRelease = release
+			late = append(late, ch)
+		case e := <-ch:
+			close(release)
+			r.f.Fatalf("VERIF-INFRA the early writer was not parked (returned %v)", e)
+		case <-time.After(10 * time.Second):
+			close(release)
+			r.f.Fatalf("VERIF-INFRA the early writer never reached its commit")
+		}
+	}
 	_, err := c12Compact(h, rc.Flush, func(n int) {
+		if rc.Early {
+			if earlyRelease != nil {
+				rel := earlyRelease
+				earlyRelease = nil
+				go func() { time.Sleep(30 * time.Millisecond); close(rel) }()
+			}
+			return
+		}
 		for i, w := range at[n] {
 			w := w
 			ch := make(chan error, 1)
@@ -1004,6 +1036,9 @@ func (r *c12Runner) runRace(rc c12Race) {
 	}
 	if rc.HoldLock {
 		kit.S().Class("racing-writer-holds-the-lock-while-the-compactor-arrives", 1)
+	}
+	if rc.Early {
+		kit.S().Class("writer-parked-before-its-commit-when-the-compaction-starts", 1)
 	}
 	after := r.observe(h, skip, before, true, "after compaction with racing writer")
 	if s := c12CmpCurrent(want, after); s != "" {
@@ -1377,6 +1412,9 @@ func c12GenCase(t *rapid.T) *c12Case {
 			wm.ByID[id] = append([]*c12Ver(nil), vs...)
 		}
 		nw := rapid.SampledFrom([]int{1, 1, 2, 3}).Draw(t, "nw")
+		if rapid.IntRange(0, 2).Draw(t, "early") == 0 {
+			rc.Early, rc.HoldLock, nw = true, false, 1
+		}
 		for j := 0; j < nw; j++ {
 			w := c12RaceW{HitSel: rapid.IntRange(0, 999).Draw(t, "hit"), Via: rapid.SampledFrom([]string{"store", "parser"}).Draw(t, "rvia")}
 			if len(dupLatest) > 0 && rapid.IntRange(0, 2).Draw(t, "tgtdup") == 0 {
